@@ -1,4 +1,5 @@
-(* Model of the term layer of rdflib (rdflib/term.py, rdflib/util.py:from_n3):
+(* Model of the term layer of rdflib (rdflib/term.py, rdflib/util.py:from_n3) as repaired by the "fix:" commits
+   for findings F7a-F7e:
    Identifier.__eq__/__hash__/__lt__, Literal.__eq__/__hash__/__gt__/__lt__/eq
    (ordering of literals only for string and integer literals), __reduce__ +
    constructors (pickle, copy, deepcopy), URIRef.n3/BNode.n3/Variable.n3/
@@ -599,8 +600,8 @@ Definition hash_of (tab : list (str * Z)) (t : term) : option Z :=
 Definition cmp_of (o : option bool) : option cmp :=
   match o with Some true => Some CLt | Some false => Some CNlt | None => None end.
 
-(* known findings of this suite: a NaN-valued xsd:decimal literal, or a NaN xsd:double/xsd:float next to
-   an xsd:decimal, makes < raise decimal.InvalidOperation (F7c) *)
+(* known findings of this suite.  F7l: a NaN-valued numeric literal is < everything including itself
+   (Literal.__lt__ = not __gt__ and not eq), and a signalling NaN still makes < raise *)
 Definition s_snan : str := [115; 110; 97; 110].
 Definition decimal_nan (t : term) : bool :=
   match t with
